@@ -418,6 +418,9 @@ fn oracle_inner(case: &Case, obs: &[OpObs], found: &mut Vec<(Value, String)>, co
             counts.push("enable-ok:outside-theorem-scope");
         }
         if le32(&before[0..]) >> 24 >= 64 {
+            // no alignment 2^k with k >= 64 exists for the host: succeeding is wrong in itself
+            viol("all_aligned", json!({"part": "unrepresentable-alignment-accepted"}),
+                format!("enable_streaming succeeded although the device reports alignment exponent {}", le32(&before[0..]) >> 24));
             continue;
         }
         let e = le32(&before[0..]) >> 24;
